@@ -44,6 +44,14 @@ Inductive bobs := BoTick | BoStart (o : bst_obs) | BoCb (o : bcb_obs) | BoSi (se
 Inductive case :=
 | CSignIn (tab : list (str * str)) (cfg : config) (p : pkind) (rq : si_request) (c : cookie)
           (rr : refresh_reply) (vr : validate_reply) (o : si_obs)
+(* the same at a sub-second instant: the request is made strictly INSIDE the wall-clock second
+   that starts at instant 0, deadlines are whole seconds relative to that start. For a whole-second
+   deadline t and an instant 0 < f < 1:  t < f  <->  t < 1  (AuthFlow_proofs.subsecond_instant), so
+   the model is asked at now = 1: every deadline <= 0 has passed, every deadline >= 1 has not.
+   (A deadline the code writes during the request, trunc(f + d) = d, is one less than the model's
+   1 + d: inside the comparison slack.) *)
+| CSignInAt (tab : list (str * str)) (cfg : config) (p : pkind) (now : Z) (rq : si_request) (c : cookie)
+            (rr : refresh_reply) (vr : validate_reply) (o : si_obs)
 | CCallback (tab : list (str * str)) (cfg : config) (rq : cb_request) (rd : redeem_reply) (o : cb_obs)
 | CStart (rq : start_request) (o : st_obs)
 | CHist (tab : list (str * str)) (cfg : config) (steps : list (event * hobs))
@@ -329,6 +337,10 @@ Definition judge (c : case) : N :=
       let lower := lower_tab tab in
       let m := si_obs_of (sign_in_route lower cfg p 0 rq ck rr vr) in
       code (negb (si_agree m o)) (negb (rule_guard lower cfg) || si_holds lower cfg p 0 rq ck rr vr o) 0
+  | CSignInAt tab cfg p now rq ck rr vr o =>
+      let lower := lower_tab tab in
+      let m := si_obs_of (sign_in_route lower cfg p now rq ck rr vr) in
+      code (negb (si_agree m o)) (negb (rule_guard lower cfg) || si_holds lower cfg p now rq ck rr vr o) 0
   | CCallback tab cfg rq rd o =>
       let lower := lower_tab tab in
       let m := cb_obs_of (oauth_callback lower cfg 0 rq rd) in
@@ -368,6 +380,8 @@ Definition classify (c : case) : N :=
       else
       (match ck with CkNone => 0 | CkJunk => 10 | CkSealed KCookie _ => 20 | CkSealed _ _ => 30 end +
        si_class o + match so_calls o with [] => 0 | CallRefresh _ :: _ => 100 | _ => 200 end)%N
+  | CSignInAt _ _ _ _ _ _ _ _ o =>
+      (6000 + si_class o + match so_calls o with [] => 0 | CallRefresh _ :: _ => 100 | _ => 200 end)%N
   | CCallback _ _ _ _ o => (1000 + co_status o)%N
   | CStart _ o => (2000 + to_status o)%N
   | CHist _ _ steps => (3000 + N.of_nat (length steps))%N
